@@ -55,7 +55,7 @@ func writeManifest() error {
 		Reason     string `json:"reason"`
 	}
 	var checks []check
-	var nas []na
+	nas := []na{}
 	var claimed []string
 	for _, id := range ids {
 		spec := registry[id]
